@@ -132,6 +132,23 @@ func (C08) Gen(r *core.Rng, tier string, emit func(string)) {
 			}
 		}
 	}
+	// long lives: one archive replaced dozens of times, a few requests of every kind between replacements (the
+	// purge-and-retry after a replacement must find its way through whatever the earlier ones left behind)
+	nLong := 4
+	if tier == "thorough" {
+		nLong = 60
+	}
+	longPaths := []string{"/a/1/0/0.mvt", "/a/metadata", "/a.json", "/a/2/1/1.mvt"}
+	for i := 0; i < nLong; i++ {
+		var ops []string
+		for v := 1; v <= 25+r.Intn(25); v++ {
+			ops = append(ops, fmt.Sprintf("P:a:%d", v))
+			for k := r.Intn(4); k > 0; k-- {
+				ops = append(ops, "S:"+longPaths[r.Intn(len(longPaths))])
+			}
+		}
+		emit(fmt.Sprintf("srvreal %s %d %s", []string{"file", "http", "filesec", "file"}[i%4], []int{64, 1}[r.Intn(2)], strings.Join(ops, " ")))
+	}
 	for i := 0; i < nReal; i++ {
 		ops := []string{fmt.Sprintf("P:a:%d", 1+r.Intn(9))}
 		if r.Bool() {
@@ -305,6 +322,24 @@ func (C09) Gen(r *core.Rng, tier string, emit func(string)) {
 	} else {
 		emit = cliDupSrv(emit, 3, 6)
 	}
+	// the server as `pmtiles serve` opens it, cache limits of a few MB, an archive whose three leaf directories
+	// (20000 entries each) together exceed 1 MB: every insertion must make room
+	{
+		var ps []string
+		for _, id := range []uint64{3, 10000, 30000, 50000, 19999, 20000, 39999, 40000, 59999, 25000} {
+			z, x, y := pmtiles.IDToZxy(id)
+			ps = append(ps, fmt.Sprintf("S:/a/%d/%d/%d.mvt", z, x, y))
+		}
+		for _, be := range []string{"file", "http"} {
+			for _, mb := range []int{1, 2, 15, 64} {
+				ops := []string{"P:a:1:big"}
+				for k := 0; k < 14; k++ {
+					ops = append(ops, ps[r.Intn(len(ps))])
+				}
+				emit(fmt.Sprintf("srvreal %s %d %s", be, mb, strings.Join(ops, " ")))
+			}
+		}
+	}
 	n := 250
 	if tier == "thorough" {
 		n = 6000
@@ -383,6 +418,18 @@ func (C09) Oracle(line, goOut string) string {
 			if (f[0] == "resp" || f[0] == "req") && limit == 0 && tot > 0 {
 				return fmt.Sprintf("event %d: cache limit is 0 but %d bytes stay cached after the event", i, tot)
 			}
+		}
+		return ""
+	}
+	if t[0] == "srvreal" {
+		// a server opened the way `pmtiles serve` opens it (NewServer on a directory / URL): transparent, and the
+		// size its event loop reports stays within the limit the user configured
+		if m := judgeReal(t[3:], goOut, false); m != "" {
+			return "not transparent: " + m
+		}
+		limit, _ := strconv.Atoi(t[2])
+		if _, mc := splitMaxCache(goOut); limit >= 1 && mc >= limit*1000*1000 {
+			return fmt.Sprintf("reported cache size reached %d bytes with a configured limit of %d MB", mc, limit)
 		}
 		return ""
 	}
@@ -533,6 +580,20 @@ func (C10) Gen(r *core.Rng, tier string, emit func(string)) {
 			emit(fmt.Sprintf("srvreal http %d P:a:1 K:reset S:%s S:%s K:reset S:/a/2/1/1.mvt S:/a/2/1/1.mvt", cache, p, p))
 			emit(fmt.Sprintf("srvreal file %d S:%s P:a:1 S:%s P:a:1:del S:%s P:a:1:trunc140 S:%s S:/a/2/1/1.mvt P:a:2 S:%s S:/a/2/1/1.mvt", cache, p, p, p, p, p))
 			emit(fmt.Sprintf("srvreal http %d P:a:2 S:%s P:a:2:garbage200 S:%s P:a:2:trunc127 S:%s P:a:3 S:%s S:/a/1/1/1.mvt", cache, p, p, p, p))
+			// the file ends right behind the root directory / the directories: reads that START beyond the end
+			for _, be := range []string{"file", "http"} {
+				emit(fmt.Sprintf("srvreal %s %d P:a:1:cuttiles S:%s S:/a/metadata S:/a/2/1/1.mvt P:a:1:cutmeta S:/a/metadata S:%s S:/a.json P:a:2 S:%s S:/a/metadata", be, cache, p, p, p))
+				emit(fmt.Sprintf("srvreal %s %d P:a:1 S:%s P:a:1:cuttiles S:/a/2/1/1.mvt S:%s P:a:3 S:%s S:/a/2/1/1.mvt", be, cache, p, p, p))
+				// a root directory announcing 2^62 entries
+				emit(fmt.Sprintf("srvreal %s %d P:a:1:hugecount S:%s S:/a/2/1/1.mvt P:b:1 S:/b/1/0/0.mvt P:a:2 S:%s", be, cache, p, p))
+			}
+			// an origin that answers a long run of requests with an error page: nothing may pile up
+			busy := []string{"P:a:1", "S:" + p, "K:busy"}
+			for k := 0; k < 24; k++ {
+				busy = append(busy, "S:"+[]string{p, "/a/metadata", "/b/1/0/0.mvt", "/a/2/1/1.mvt"}[k%4])
+			}
+			busy = append(busy, "K:calm", "P:a:2", "S:"+p, "S:/a/2/1/1.mvt")
+			emit(fmt.Sprintf("srvreal http %d %s", cache, strings.Join(busy, " ")))
 		}
 	}
 	// malformed objects
